@@ -212,17 +212,18 @@ func (m *healthMaterial) realiseWitness(wdir string, c healthCond) {
 		wsigner = m.stranger
 	}
 	wcp := SignNote(originA, pendingN, m.pRoot, wsigner)
-	wdirA := OriginHash(originA)
 	switch c.Wcp {
 	case "ok", "resigned":
 	case "truncated":
 		wcp = half(wcp)
 	case "wrongdir":
-		wdirA = OriginHash(originX)
+		// a (validly cosigned) checkpoint of origin A that does not sit under
+		// the hash of its own origin, next to the one that does
+		WriteFile(filepath.Join(wdir, OriginHash(originX), "checkpoint"), wcp)
 	default:
 		panic("wcp " + c.Wcp)
 	}
-	WriteFile(filepath.Join(wdir, wdirA, "checkpoint"), wcp)
+	WriteFile(filepath.Join(wdir, OriginHash(originA), "checkpoint"), wcp)
 	WriteFile(filepath.Join(wdir, OriginHash(originB), "checkpoint"), SignNote(originB, pendingN, m.pRoot, m.witness))
 }
 
@@ -242,9 +243,6 @@ func (m *healthMaterial) realiseMirror(mdir string, c healthCond) {
 		tree = m.ahead
 	}
 	mdirA := OriginHash(originA)
-	if c.Mcp == "wrongdir" {
-		mdirA = OriginHash(originX)
-	}
 	writeTree := func(dir string, t *MirrorTree) {
 		for p, data := range t.Tiles {
 			WriteFile(filepath.Join(dir, filepath.FromSlash(p)), data)
@@ -272,6 +270,11 @@ func (m *healthMaterial) realiseMirror(mdir string, c healthCond) {
 		mcp = half(mcp)
 	}
 	WriteFile(filepath.Join(mdir, mdirA, "checkpoint"), mcp)
+	if c.Mcp == "wrongdir" {
+		// a second, intact mirrored tree of origin A under another origin's hash
+		writeTree(filepath.Join(mdir, OriginHash(originX)), tree)
+		WriteFile(filepath.Join(mdir, OriginHash(originX), "checkpoint"), mcp)
+	}
 	// a second mirrored origin that is always in order
 	writeTree(filepath.Join(mdir, OriginHash(originB)), m.behind)
 	WriteFile(filepath.Join(mdir, OriginHash(originB), "checkpoint"), SignNote(originB, m.behind.N, m.behind.Root, m.mirror))
